@@ -134,13 +134,64 @@ func scenarios() []e3.Scenario {
 			},
 		})
 	}
+	// first observation of a constructed list message (no wrapper item): three holders observe it
+	// for the first time concurrently; everything any of them sees equals what a twin, built the
+	// same way and observed by one goroutine, shows — a memo that is filled in place, a length
+	// computed while another reader looks, show up as a frame whose length prefix or body differs
+	{
+		mk := func() *hsms.DataMessage {
+			it := secs2.L(secs2.A("abc"), secs2.U2(7, 8), secs2.L(secs2.BOOLEAN(true, false), secs2.B(1, 2, 3)), secs2.F8(1.5))
+			dm, err := hsms.NewDataMessage(1, 3, true, 0x0102, [4]byte{0xA, 0xB, 0xC, 0xD}, it)
+			if err != nil {
+				panic(err)
+			}
+			return dm
+		}
+		var frames [3][]byte
+		var lens [3][2]int
+		out = append(out, e3.Scenario{
+			Name: "first-observation-list", Horizon: time.Second,
+			Setup: func(e *e3.Env) {
+				frames, lens = [3][]byte{}, [3][2]int{}
+				dm := mk()
+				c1 := dm.WithSystemBytes([4]byte{0xA, 0xB, 0xC, 0xD})
+				c2 := c1.WithSessionID(0x0102)
+				for i, x := range []*hsms.DataMessage{dm, c1, c2} {
+					i, x := i, x
+					e.Thread(fmt.Sprintf("reader%d", i), func() {
+						if i == 1 {
+							it, _ := x.Item()
+							lens[i] = [2]int{x.BodyLen(), it.EncodedLen()}
+							frames[i] = x.ToBytes()
+						} else {
+							frames[i] = x.ToBytes()
+							it, _ := x.Item()
+							lens[i] = [2]int{x.BodyLen(), it.EncodedLen()}
+						}
+					})
+				}
+			},
+			Finish: func(e *e3.Env) {
+				twin := mk()
+				want := twin.ToBytes()
+				for i := 0; i < 3; i++ {
+					if string(frames[i]) != string(want) {
+						e.Violate("first-observation-differs", "holder %d's first ToBytes() of a constructed list message is %x; a twin observed by one goroutine serialises to %x", i, frames[i], want)
+					}
+					if lens[i] != [2]int{len(want) - 14, len(want) - 14} {
+						e.Violate("first-observation-length", "holder %d saw BodyLen()/EncodedLen() = %v; the body is %d bytes", i, lens[i], len(want)-14)
+					}
+				}
+			},
+		})
+	}
 	return out
 }
 
 func TestCheck(t *testing.T) {
 	vfw.Main(t, "C12", func(c *vfw.Ctx) {
 		c.Level("model_checking")
-		c.Rule("E3: every schedule with <= B departures (quick 2, thorough 3) of 3 threads performing the first Item()/DecodeErr()/ToBytes()/AppendBodyTo() on a lazily decoded (valid / invalid body) or lazily encoded message and its re-stamped copies, on the instrumented library; oracle: one Item pointer and one error value for all holders, the body item serialised at most once, identical bytes")
+		c.Rule("E3: every schedule with <= B departures (quick 2, thorough 3) of 3 threads performing the first Item()/DecodeErr()/ToBytes()/AppendBodyTo() on a lazily decoded (valid / invalid body) or lazily encoded message and its re-stamped copies, and the first ToBytes()/BodyLen()/EncodedLen() of a constructed list message by three holders (secs2 and sml are instrumented too), on the instrumented library; oracle: one Item pointer and one error value for all holders, the body item serialised at most once, identical bytes")
 		if c.Replay != nil {
 			var r e3.Replay
 			if err := json.Unmarshal(c.Replay, &r); err != nil || r.Scenario == "" {
